@@ -1083,7 +1083,7 @@ func (c *Checked) checkInvokeModel(i int, op Op, res *OpResult, evs []Event) {
 		return
 	}
 	if res.Verdict == VCycle && !anyCycle {
-		c.viol(i, "spurious-cycle", fmt.Sprintf("Invoke f%d from s%d reported a cycle but the graph is acyclic under every reading: %s", inv.ID, op.Scope, res.Facts.Text), "C05", "C16")
+		c.viol(i, "spurious-cycle", fmt.Sprintf("Invoke f%d from s%d reported a cycle but the graph is acyclic under every reading: %s", inv.ID, op.Scope, res.Facts.Text), "C05", "C16", "C13", "C04")
 	}
 	if anyCycle || av.Loops {
 		c.probe("invoke_model_skipped_cycle")
